@@ -50,6 +50,7 @@ fixed("FX-C05-01", "C05", "9c62834", "an invalid escape sequence in an object ke
 fixed("FX-C09-04", "C09", "57be1d1", "an escaped object key straddling a read boundary made Decoder fail (invalid character u as escaped char / expected colon after object key) or drop the member")
 fixed("FX-C09-07", "C09", "9207e74", "a number that is the value of an unknown struct member with whitespace before it and a refill boundary inside it made Decoder fail with 'expected comma after object element' (was KF-C09-07): {\"p\":\"xx..x\",\"unknown\":  256} at 511 bytes")
 fixed("FX-C09-02", "C09", "57be1d1", "refill inside an escaped struct key lost the scanner state (was KF-C09-02; completed by b177bea and 17431c1)")
+fixed("FX-C02-04", "C02", "3851b65", "null into a non-nil []byte left the old bytes: Unmarshal({\"q\":\"\",\"q\":null}) kept q = []byte{} (encoding/json: nil), also for pre-populated destinations and in stream mode")
 fixed("FX-C15-01", "C15", "57be1d1", "Decoder fed 5-byte chunks failed on fully \\u-escaped keys")
 
 fixed("FX-C06-04", "C06", "0243e9f", "Compact/Indent of a 100000-deep tower: fatal out of memory / stack overflow (no nesting limit)")
